@@ -787,6 +787,7 @@ struct ReadTransactionCounterInner {
 #[doc(hidden)]
 pub mod verif_hooks {
     pub use super::allocator::verif_hooks::free_list;
+    pub use super::allocator::verif_hooks::grow as allocator_grow;
     pub use super::allocator::PageNumber;
     pub use super::branch::node as branch_node;
     pub use super::leaf::node as leaf_node;
